@@ -52,6 +52,14 @@ def c07(ctx):
              "and the delimiter, or, if written by hand, decides where a separator goes by position only (never by looking at the text "
              "accumulated so far or at an element)")
     text_primitives(ctx, "C07.R5")
+    rep.rule("C07.R6", "exact integrality: Val::try_to_integer succeeds exactly when the number equals a rounding of itself (an `==` between f and "
+             "trunc / floor / round / ceil of f): no tolerance, so a radix or a code point that is not an integer is an error")
+    integrality_rule(ctx, "C07.R6")
+    rep.rule("C07.R7", "exactly and only the target (EVAL-ONCE, shared with C06.R8, on the mutation and rounding statements): the operand of "
+             "cut / join / cast / turn is addressed by one evaluation -- read here and written there lets a side-effecting subscript select "
+             "two different elements")
+    from . import evalonce
+    evalonce.run(ctx, "C07.R7", evalonce.REVIEWED, 3, only=lambda fn: fn.name in ("visit_mutation", "mutation_helper", "visit_rounding"))
     rep.rule("C07.R4", "CENSUS restricted to the transformation code (Val::{split,join,cast,try_to_integer,round_*}, mutation_helper, "
              "visit_mutation, visit_rounding): no panicking callee precondition is left open (radix range, code point conversion)")
     em = inherent_methods(F, EXEC)
@@ -302,3 +310,51 @@ def text_primitives(ctx, rule):
                            body.loc(t["line"]), how="separator controlled by position")
         if n == 0:
             rep.fail(rule, "join::shape", "neither a library join nor a recognisable hand-written joining loop in Val::join: exactness of the joined text cannot be shown", jn.loc())
+
+
+
+def integrality_rule(ctx, rule):
+    F, rep = ctx.F, ctx.rep
+    fn = F.fn("exec::val::Val::try_to_integer")
+    if fn is None:
+        rep.fail(rule, "anchor", "Val::try_to_integer not found")
+        return
+    rep.analysed(fn)
+    ROUNDINGS = ("trunc", "floor", "round", "ceil", "round_ties_even")
+    # the condition that decides: operand of bool::then / of the switch that separates Ok from Err
+    conds = []
+    for bi, t in fn.calls():
+        if is_callee(t, "core::bool::<impl bool>::then", "core::bool::<impl bool>::then_some"):
+            conds.append(t["args"][0])
+    for sb in range(len(fn.blocks)):
+        st = fn.term(sb)
+        if st["k"] == "switch" and op_local(st["on"]) is not None and fn.local_ty(op_local(st["on"])).s == "bool":
+            conds.append(st["on"])
+    ok, why = False, "no deciding condition found"
+    for cnd in conds:
+        for d, p in origins(fn, cnd):
+            if d[0] != "op":
+                why = "the deciding condition is not a comparison of the number with its rounding"
+                continue
+            rv = fn.stmts(d[1])[d[2]]["rv"]
+            if rv.get("bin") not in ("eq", "ne"):
+                why = "try_to_integer decides with `%s`, not with an exact equality: numbers that are only close to an integer are accepted as that integer" % rv.get("bin")
+                ok = False
+                break
+            sides = []
+            for o in (rv["a"], rv["b"]):
+                src = set(origins(fn, o))
+                if src and all(dd == ("param", 1) for dd, pp in src):
+                    sides.append("f")
+                elif src and all(dd[0] == "call" and fn.term(dd[1])["callee"].get("name") in ROUNDINGS and
+                                 all(x == ("param", 1) for x, _ in origins(fn, fn.term(dd[1])["args"][0])) for dd, pp in src):
+                    sides.append("round(f)")
+                else:
+                    sides.append("?")
+            if sorted(sides) == ["f", "round(f)"]:
+                ok, why = True, ""
+            else:
+                ok, why = False, "the equality compares %s, not the number with a rounding of itself" % sides
+        if ok:
+            break
+    rep.ob(rule, "exact-integrality", ok, why, fn.loc(), how="f == f.trunc()")
